@@ -153,5 +153,16 @@ func Run(seed uint64, n int, o GenOpts, maxLen int) ([]*History, error) {
 
 // BlankBody: with the default recover handler the body is a stack trace; it is not compared.
 func (h *History) BlankBody(i int) bool {
-	return h.Cfg.Recover && !h.Cfg.HasRS && h.Model[i].Recov > 0
+	if h.Cfg.Recover && !h.Cfg.HasRS && h.Model[i].Recov > 0 {
+		return true
+	}
+	// the library's own service-error writer: its message texts are not part of any property
+	if !h.Cfg.CustomErr {
+		for _, e := range h.Model[i].Log {
+			if e.Stage == "err" {
+				return true
+			}
+		}
+	}
+	return false
 }
